@@ -124,6 +124,14 @@ class RecSim(Sim):
         ev = cls(proc, 0, expected) if state == 100 else cls(proc, 0)
         self.listener.on_process_state(ev)
 
+    def proc_removed(self, p):
+        """ the local Supervisor removes a (stopped) program from its configuration: the REAL SupervisorListener.on_process_removed """
+        self._fail_marked = False
+        self.known.remove(p); del self.truth[p]
+        proc = Mock(); proc.group.config.name = 'app'; proc.config.name = f'p{p}'
+        ev = Mock(); ev.process = proc
+        self.listener.on_process_removed(ev)
+
     def process_view(self, p):
         app = self.context.applications.get('app')
         proc = app.processes.get(f'p{p}') if app else None
@@ -179,6 +187,8 @@ class RecSim(Sim):
             h = PublicationHeaders(header)
             if h == PublicationHeaders.TICK: return f"rtick {j} {body['sequence_counter']}"
             if h == PublicationHeaders.STATE: return f"state {j} {self.modes_str(body)}"
+            if h == PublicationHeaders.PROCESS_REMOVED and getattr(self, 'nproc', 0) and body.get('group') == 'app':
+                return f"prem {j} {int(body['name'][1:])}"
             if h == PublicationHeaders.PROCESS and getattr(self, 'nproc', 0) and body.get('group') == 'app':
                 return f"pev {j} {int(body['name'][1:])} {int(body['state'])} {int(bool(body['expected']))} {int(round(body['now_monotonic'] * UNIT))}"
             return 'none'
@@ -400,9 +410,14 @@ def run_schedule(seed, rec, nmax=4, max_ticks=40, faults_max=10, quiet_ticks=0, 
             cands = [s for s in sims if s.identifier not in net.down and s.k in started and s.known]
             if cands:
                 s = rnd.choice(cands); p = rnd.choice(s.known)
-                st = rnd.choice(PNEXT[s.truth[p]['state']]); expected = rnd.random() < 0.7 if st == 100 else True
-                with watchdog(10): s.proc_event(p, st, expected)
-                rec.rec(sims, f'pev {s.k - 1} {p} {st} {int(expected)}'); info['pev'] = info.get('pev', 0) + 1
+                if s.truth[p]['state'] in (0, 100, 200) and rnd.random() < 0.04:
+                    # the (stopped) program is removed from the Supervisor configuration (update_numprocs / removeProcessGroup)
+                    with watchdog(10): s.proc_removed(p)
+                    rec.rec(sims, f'prm {s.k - 1} {p}'); info['prm'] = info.get('prm', 0) + 1
+                else:
+                    st = rnd.choice(PNEXT[s.truth[p]['state']]); expected = rnd.random() < 0.7 if st == 100 else True
+                    with watchdog(10): s.proc_event(p, st, expected)
+                    rec.rec(sims, f'pev {s.k - 1} {p} {st} {int(expected)}'); info['pev'] = info.get('pev', 0) + 1
         acts = []
         for s in sims:
             if s.identifier in net.down: continue
@@ -416,7 +431,8 @@ def run_schedule(seed, rec, nmax=4, max_ticks=40, faults_max=10, quiet_ticks=0, 
                 if a[0] == 'deliver':
                     try: origin = a[1].idx.get(json.loads(a[1].inbox[0][1])[0][0])
                     except Exception: origin = None
-                    a[1].deliver(); rec.rec(sims, f'deliver {a[1].k - 1}' + (f' {origin}' if origin is not None else ''))
+                    kind = 'p' if a[1].inbox[0][0] == SUPVISORS_PUBLICATION else 'n'
+                    a[1].deliver(); rec.rec(sims, f'deliver {a[1].k - 1}' + (f' {origin} {kind}' if origin is not None else ''))
                 else:
                     tgt = a[1].idx[a[2].status.identifier]
                     a[2].step(); rec.rec(sims, f'exec {a[1].k - 1} {tgt}')
@@ -458,6 +474,7 @@ def run_script(n, per, actions, rec, sim_cls=RecSim, programs=None):
                 if not (p and p.queue): continue
                 p.step()
             elif kind == 'pev' and up and programs and int(w[2]) in s.known: s.proc_event(int(w[2]), int(w[3]), w[4] == '1')
+            elif kind == 'prm' and up and programs and int(w[2]) in s.known: s.proc_removed(int(w[2]))
             elif kind == 'crash' and up and len(net.down) < n - 1: net.down.add(s.identifier)
             elif kind == 'restart' and s is not None and not up:
                 new = sim_cls(net, s.k, n, per[s.k]); sims[s.k - 1] = new; net.down.discard(new.identifier)
